@@ -119,6 +119,65 @@ example : (front exCfg exClient).kind = .relay ∧ (front exCfg exClient).T = 10
     (front exCfg exClient).st = .sniffer [71, 69, 84, 32, 47, 32, 72, 84, 84, 80, 47, 49, 46, 49, 13, 10] false := by
   decide
 
+/-- **The detection front never fails (no-panic clause).** For every client byte stream, segmentation and
+timing, DNS-over-TCP detection (a) decodes the length prefix only from two bytes that were really
+read, (b) inspects the frame (`Unpack`, QR bit, `Discard` — the code's `fullData[2:]`) only when all
+`2 + len` bytes are in the reader, with `2 + len` computed without wrap-around (in ℕ, as
+`2 + int(length)` since 74b17e5 — not `int(2 + length)` in uint16, which turned 0xFFFF/0xFFFE into 1/0
+and sliced out of range), so a frame larger than the 4096-byte reader never gets there, and (c) ends in
+exactly one of the three outcomes relay / handled as DNS / connection ended. -/
+theorem detection_total (cfg : Cfg) (s : Script) :
+    (match (peekLoop (some (cfg.start + dnsWindow)) 2 s.fuel s cfg.start []).1 with
+      | .ok => 2 ≤ (peekLoop (some (cfg.start + dnsWindow)) 2 s.fuel s cfg.start []).2.2.1.length
+      | _ => True) ∧
+    (∀ (p1buf : Bytes) (rest : Script) (now : Nat), p1buf.length ≤ bufioSize →
+      match (peekLoop (some (cfg.start + dnsWindow)) (2 + be16 p1buf) s.fuel rest now p1buf).1 with
+      | .ok => 2 + be16 p1buf ≤ (peekLoop (some (cfg.start + dnsWindow)) (2 + be16 p1buf) s.fuel rest now p1buf).2.2.1.length ∧
+          (peekLoop (some (cfg.start + dnsWindow)) (2 + be16 p1buf) s.fuel rest now p1buf).2.2.1.length ≤ bufioSize
+      | _ => True) ∧
+    ((dnsDetect cfg s).kind = .relay ∨ (dnsDetect cfg s).kind = .dns ∨ (dnsDetect cfg s).kind = .abort) := by
+  refine ⟨?_, ?_, ?_⟩
+  · have := (peekLoop_ok_bounds (some (cfg.start + dnsWindow)) 2 s.fuel s cfg.start [] (by simp)).2.2
+    exact this
+  · intro p1buf rest now hb
+    have h := peekLoop_ok_bounds (some (cfg.start + dnsWindow)) (2 + be16 p1buf) s.fuel rest now p1buf hb
+    cases hk : (peekLoop (some (cfg.start + dnsWindow)) (2 + be16 p1buf) s.fuel rest now p1buf).1 with
+    | ok => have h2 := h.2.2; rw [hk] at h2; exact ⟨h2, h.1⟩
+    | full => trivial
+    | fail e => trivial
+  · cases (dnsDetect cfg s).kind <;> simp
+
+/-- …in particular a length prefix whose frame cannot fit the reader (4095 … 65535, i.e. also the two
+values that used to wrap) is never DNS: the connection is relayed, with every byte
+(`detection_hands_over_every_byte`). -/
+theorem oversize_length_is_not_dns (cfg : Cfg) (s : Script)
+    (hbig : bufioSize < 2 + be16 (peekLoop (some (cfg.start + dnsWindow)) 2 s.fuel s cfg.start []).2.2.1) :
+    (dnsDetect cfg s).kind = .relay := by
+  have hb1 := (peekLoop_ok_bounds (some (cfg.start + dnsWindow)) 2 s.fuel s cfg.start [] (by simp)).1
+  unfold dnsDetect dnsDetectRaw Front.cleared
+  simp only
+  generalize peekLoop (some (cfg.start + dnsWindow)) 2 s.fuel s cfg.start [] = q at *
+  cases h1 : q.1 with
+  | ok =>
+    simp only [h1]
+    split
+    · rfl
+    · have h := peekLoop_ok_bounds (some (cfg.start + dnsWindow)) (2 + be16 q.2.2.1) s.fuel q.2.2.2 q.2.1 q.2.2.1 hb1
+      cases h2 : (peekLoop (some (cfg.start + dnsWindow)) (2 + be16 q.2.2.1) s.fuel q.2.2.2 q.2.1 q.2.2.1).1 with
+      | ok =>
+        have h3 := h.2.2; rw [h2] at h3
+        have := h.1
+        omega
+      | full => simp only [h2]
+      | fail e => simp only [h2]
+  | full => simp only [h1]
+  | fail e => simp only [h1]
+
+/-- client sends `ff ff 00` to port 53 and closes: not DNS, relayed intact -/
+example : (dnsDetect { exCfg with port53 := true, sniff := false } ⟨[⟨1, [255, 255, 0]⟩], 101, .eof⟩).kind = .relay ∧
+    (dnsDetect { exCfg with port53 := true, sniff := false } ⟨[⟨1, [255, 255, 0]⟩], 101, .eof⟩).st = .bufio [255, 255, 0] := by
+  decide
+
 /-- **Headline (timing).** The relay starts no later than the detection window after `handleConn`
 had its routing result: 5 s on port 53, twice the sniffing timeout on a sniffed port (prefetch +
 sniffer), immediately otherwise — and never before. -/
